@@ -28,14 +28,16 @@ SRC = {
     "sub/y.h": "int y;\n",
 }
 CFG = "#define FEATURE\n#define LEVEL 2\nint cfgline;\n"
-VARIANTS = ["cfg-inside", "cfg-outside"]
+VARIANTS = ["cfg-inside", "cfg-outside", "cfg-inside-angle", "cfg-outside-angle"]   # -angle: the header is included as <cfg.h>
 
 
 def build(base, variant):
     root = os.path.join(base, "root")
     os.makedirs(root)
     files = dict(SRC)
-    if variant == "cfg-inside":
+    if variant.endswith("-angle"):
+        files = {k: v.replace('"cfg.h"', "<cfg.h>") for k, v in files.items()}
+    if variant.startswith("cfg-inside"):
         files["cfg.h"] = CFG
         inc = ["-I", root]
     else:
@@ -113,7 +115,7 @@ def _work(arg):
     except Exception as e:  # noqa
         return 1, [Failure("exception", {"variant": variant, "exclude": []}, observed=f"{type(e).__name__}: {e}")], 0
     # outside header never contributes; its macros do
-    if variant == "cfg-outside":
+    if variant.startswith("cfg-outside"):
         if any("cfg.h" in rel for rel in att0):
             out.append(Failure("outside-file-counted", {"variant": variant}, expected="cfg.h outside the root contributes no lines", observed=sorted(att0)))
         if att0.get("main.c", {}).get(4) != frozenset({"p1"}):
@@ -159,6 +161,29 @@ def _work(arg):
                     out.append(Failure("x-vs-analysis-file", dict(w, tool=b[0]), expected=b[1], observed=b[2]))
     shutil.rmtree(base, ignore_errors=True)
     return n, out, skipped
+
+
+def _cross(suffix):
+    """A header outside the root and the same header inside the root but excluded are the same thing to every other file."""
+    out = []
+    atts = {}
+    for v in ("cfg-inside" + suffix, "cfg-outside" + suffix):
+        base = env.fresh_dir("c10x")
+        root, files, plats = build(base, v)
+        codebase.write_analysis(root, plats)
+        try:
+            atts[v], _ = analyse(root, plats, ["/cfg.h"] if v.startswith("cfg-inside") else [])
+        except Exception as e:  # noqa
+            out.append(Failure("exception", {"variant": v, "exclude": ["/cfg.h"]}, observed=f"{type(e).__name__}: {e}"))
+        shutil.rmtree(base, ignore_errors=True)
+    if len(atts) == 2:
+        a, b = atts["cfg-inside" + suffix], atts["cfg-outside" + suffix]
+        if a != b:
+            d = [(rel, ln, sorted(a.get(rel, {}).get(ln, ["<absent>"])), sorted(b.get(rel, {}).get(ln, ["<absent>"])))
+                 for rel in sorted(set(a) | set(b)) for ln in sorted(set(a.get(rel, {})) | set(b.get(rel, {}))) if a.get(rel, {}).get(ln) != b.get(rel, {}).get(ln)]
+            out.append(Failure("outside-vs-excluded", {"variant": "cfg-inside%s with /cfg.h excluded vs cfg-outside%s" % (suffix, suffix)},
+                               expected="identical per-line attribution of every other file", observed=d[:8]))
+    return 1, out, 0
 
 
 def cli_equiv(root, plats, pats):
@@ -209,20 +234,20 @@ def run(tier):
         raise SystemExit("git is required to confirm the pattern renderings")
     jobs = []
     for v in VARIANTS:
-        files = sorted(list(SRC) + (["cfg.h"] if v == "cfg-inside" else []))
+        files = sorted(list(SRC) + (["cfg.h"] if v.startswith("cfg-inside") else []))
         subs = [list(c) for r in range(0, len(files) + 1) for c in itertools.combinations(files, r)]
         for i in range(0, len(subs), 4):
             chunk = subs[i:i + 4]
             with_cli = tier == "thorough" or ((i // 4 + env.SEED) % 3 == 0)
             jobs.append((v, chunk, with_cli))
-    res = par.pmap(_work, jobs)
+    res = par.pmap(_work, jobs) + [_cross(""), _cross("-angle")]
     for r in res:
         rep.add(r[1])
     n = sum(r[0] for r in res)
     rep.coverage.update({
         "evaluations": n, "distinct_nontrivial": n,
-        "rule": "2 code-base variants (macro header inside / outside the root) x every subset of the files x up to 4 pattern renderings that git confirms to match "
-                "exactly the subset; each analysed with and without the exclusion in-process; -x vs analysis-file equivalence through the three front ends for %s" % (
+        "rule": "4 code-base variants (macro header inside / outside the root, included in quote / angle form) x every subset of the files x up to 4 pattern renderings that git confirms to match "
+                "exactly the subset; each analysed with and without the exclusion in-process; -x vs analysis-file equivalence through the three front ends for %s; header outside the root == header inside and excluded" % (
                     "every case" if tier == "thorough" else "a seed-rotated third of the cases"),
         "cases": n, "renderings_rejected_by_git": sum(r[2] for r in res), "failing_cases": sum(len(r[1]) for r in res),
         "samples": [{"variant": "cfg-outside", "excluded": ["part.c", "util.c"], "patterns": ["/part.c", "/util.c"]}],
